@@ -173,14 +173,31 @@ def history_check(case):
         pool = fresh_filters(case['pool'], case.get('salt', 0))
         held = {}
         seen = []
+        import hszinc
         nrows = len(g)
         bumps = [0] * nrows
+        retarget = [None]
         for step, (op, i) in enumerate(case['ops']):
             if op == 'mutate':
                 # replace a row of the shared grid (same id, other values and another reference target)
                 j = i % nrows
                 bumps[j] += 1
                 g[j] = make_row(j, nrows, bumps[j])
+                for k in range(nrows):
+                    if retarget[0] is not None and k != j:
+                        pass
+                if retarget[0] is not None:
+                    row = dict(g[j])
+                    row['r'] = hszinc.Ref('id%d' % retarget[0])
+                    g[j] = row
+                continue
+            if op == 'retarget':
+                # every row now references the same target row: consecutive a->b look-ups resolve the same Ref
+                retarget[0] = i % nrows
+                for k in range(nrows):
+                    row = dict(g[k])
+                    row['r'] = hszinc.Ref('id%d' % retarget[0])
+                    g[k] = row
                 continue
             i = i % len(pool)
             text, pred = pool[i]
@@ -222,6 +239,7 @@ def plan(tier, seed, excl):
     t += [('sched-random', {'shard': i, 'n': 150 if q else 6000}) for i in range(4 if q else 12)]
     t += [('history-small', {'shard': i, 'n': 120 if q else 2500}) for i in range(4)]
     t += [('history-real', {'variant': i}) for i in range(2 if q else 6)]
+    t.append(('history-targets', {}))
     return t
 
 
@@ -268,7 +286,7 @@ def run(part, args, env):
         op = st.one_of(st.tuples(st.just('eval'), st.integers(0, 29)), st.tuples(st.just('eval'), st.integers(0, 29)),
                        st.tuples(st.just('eval'), st.integers(0, 29)), st.tuples(st.just('eval'), st.integers(0, 11)),
                        st.tuples(st.just('hold'), st.integers(0, 29)), st.tuples(st.just('call_old'), st.integers(0, 29)),
-                       st.tuples(st.just('gc'), st.just(0)), st.tuples(st.just('mutate'), st.integers(0, 11)))
+                       st.tuples(st.just('gc'), st.just(0)), st.tuples(st.just('mutate'), st.integers(0, 11)), st.tuples(st.just('retarget'), st.integers(0, 11)))
         strat = st.lists(op, min_size=25, max_size=80).map(lambda ops: {'kind': 'history', 'capacity': 8, 'pool': 30,
                                                                        'ops': [list(o) for o in ops]})
 
@@ -278,6 +296,26 @@ def run(part, args, env):
             if acc.want_sample() and len(case['ops']) < 25:
                 acc.sample(case)
         run_hypothesis(acc, body, strat, args['n'], shard_seed(env['seed'], PROPERTY, 'h', args['shard']))
+    elif part == 'history-targets':
+        # a->b filters around replacement of the row they dereference: all rows point at one target, the target is replaced
+        # (same id, new values) between evaluations, for every target and several path filters (pool indices 3, 13, 23 ...)
+        n = 0
+        for target in range(12):
+            ops = [['retarget', target]]
+            for rep in range(3):
+                for fi in (3, 13, 23, 33):
+                    ops.append(['eval', fi])
+                ops.append(['mutate', target])
+            for fi in (3, 13, 23, 33, 0, 8):
+                ops.append(['eval', fi])
+            case = {'kind': 'history', 'capacity': 500, 'pool': 40, 'salt': 0, 'ops': ops}
+            n += len(ops)
+            try:
+                history_check(case)
+            except Violation as vi:
+                acc.violation(vi)
+        acc.bulk(n, n, labels=('history-targets',))
+        acc.sample({'kind': 'history', 'ops': [['retarget', 0], ['eval', 3], ['mutate', 0], ['eval', 3]]})
     else:
         v = args['variant']
         ops = []
